@@ -1330,7 +1330,85 @@ def r7_apply(src, log, map_kind="result", path_map_kind="result", map_or_kind="o
     return src
 
 
+def _path_call_at(toks, s, k, path):
+    """does the significant-token index k start the path `a::b::c` followed by `(`?  returns index (in s) of `(` or None"""
+    j = k
+    for n, seg in enumerate(path):
+        if j >= len(s) or toks[s[j]].text != seg:
+            return None
+        j += 1
+        if n + 1 < len(path):
+            if j + 1 >= len(s) or toks[s[j]].text != ":" or toks[s[j + 1]].text != ":":
+                return None
+            j += 2
+    if j < len(s) and toks[s[j]].text == "(":
+        return j
+    return None
+
+
+def r26_spawn(src, log):
+    """R26: `tokio::spawn(async move BLOCK)` -> `tokio_spawn_(move || BLOCK)`: the spawned task becomes a closure that the
+    shim runs to completion at the spawn point (sequential model of a task that is later joined through its JoinHandle;
+    the concurrency between the task and the spawner is dropped - stated in DESIGN.md)."""
+    n = 0
+    while True:
+        toks = lex(src); m = match_brackets(toks); s = sig(toks)
+        hit = None
+        for k, i in enumerate(s):
+            if k > 0 and toks[s[k - 1]].text in (":", "."):
+                continue
+            po = _path_call_at(toks, s, k, ["tokio", "spawn"])
+            if po is None:
+                continue
+            if toks[s[po + 1]].text != "async":
+                continue
+            j = po + 2
+            mv = ""
+            if toks[s[j]].text == "move":
+                mv = "move "; j += 1
+            if toks[s[j]].text != "{":
+                continue
+            hit = (toks[i].start, toks[s[j]].start, "tokio_spawn_(" + mv + "|| ")
+            break
+        if hit is None:
+            break
+        src = _replace(src, [hit])
+        n += 1
+    log["R26"] = log.get("R26", 0) + n
+    return src
+
+
+def r27_block_in_place(src, log):
+    """R27: `tokio::task::block_in_place(|| BODY)` -> `(BODY)`: block_in_place runs the closure on the current thread and
+    returns its value; the closure literal is invoked exactly once, immediately."""
+    n = 0
+    while True:
+        toks = lex(src); m = match_brackets(toks); s = sig(toks)
+        hit = None
+        for k, i in enumerate(s):
+            if k > 0 and toks[s[k - 1]].text in (":", "."):
+                continue
+            po = _path_call_at(toks, s, k, ["tokio", "task", "block_in_place"])
+            if po is None:
+                continue
+            if toks[s[po + 1]].text != "|" or toks[s[po + 2]].text != "|":
+                continue
+            c = m[s[po]]
+            body = src[toks[s[po + 2]].end:toks[c].start].strip()
+            if body.endswith(","):
+                body = body[:-1].rstrip()
+            hit = (toks[i].start, toks[c].end, "(" + body + ")")
+            break
+        if hit is None:
+            break
+        src = _replace(src, [hit])
+        n += 1
+    log["R27"] = log.get("R27", 0) + n
+    return src
+
+
 RULES = {
+    "R26": r26_spawn, "R27": r27_block_in_place,
     "R25": r25_map_collect,
     "R21": r21_streq,
     "R17": r17_underscore_assign,
